@@ -368,6 +368,24 @@ pub fn gen_wasm(rng: &mut Rng, thorough: bool) -> Vec<String> {
         observe(&mut ops);
         ops.push("q-info c1_3".into());
     }
+    if rng.chance(1, 6) {
+        // supply asked, then a burn (by a user / by a contract through a caught or uncaught failing branch) inside a
+        // transaction that fails afterwards, then supply asked again: nothing the ledger REMEMBERS may differ from what it stores
+        let d = rng.pick(&["d1", "d2"]);
+        ops.push(format!("q-sup {}", d));
+        ops.push("rawhash".into());
+        match rng.below(3) {
+            0 => ops.push(format!("multi u1 ((burn 1:{}) (exec c1_0 ((fail)) -))", d)),
+            1 => ops.push(format!("multi u1 ((burn 2:{}) (send u2 1:{}) (send u2 100000:{}))", d, d, d)),
+            _ => {
+                ctx.sub_id += 1;
+                ops.push(format!("exec u1 (exec c1_0 ((sub {} error () (exec c2_1 ((msg (burn 1:{})) (fail)) 1:{}))) -)", ctx.sub_id, d, d));
+            }
+        }
+        observe(&mut ops);
+        ops.push(format!("q-sup {}", d));
+        ops.push("q-all u1".into());
+    }
     let ntx = if thorough { rng.range(3, 9) } else { rng.range(2, 6) };
     let maxd = if thorough { 4 } else { 3 };
     for _ in 0..ntx {
